@@ -1,6 +1,7 @@
 package internal
 
 import (
+	"bytes"
 	"io"
 	"os"
 	"strings"
@@ -33,6 +34,21 @@ func ReadFullAt(r io.ReaderAt, buf []byte, off int64) (n int, err error) {
 		return n, io.ErrUnexpectedEOF
 	}
 	return n, err
+}
+
+// ReadN reads exactly n bytes from r. The buffer grows as data arrives instead
+// of being allocated up front so that a corrupt or hostile length prefix cannot
+// force an allocation out of proportion to the bytes actually received.
+// Errors match io.ReadFull(): io.EOF if no bytes were read and
+// io.ErrUnexpectedEOF if the stream ended early.
+func ReadN(r io.Reader, n int64) ([]byte, error) {
+	var buf bytes.Buffer
+	if _, err := io.CopyN(&buf, r, n); err == io.EOF && buf.Len() > 0 {
+		return nil, io.ErrUnexpectedEOF
+	} else if err != nil {
+		return nil, err
+	}
+	return buf.Bytes(), nil
 }
 
 // Close closes closer but ignores select errors.
